@@ -369,6 +369,7 @@ func valRepr(n *pb.Notification) string {
 		for _, u := range n.Update {
 			c := proto.Clone(u).(*pb.Update)
 			c.Duplicates = 0
+			c.Val = normZero(c.Val)
 			b, _ := mo.Marshal(c)
 			fmt.Fprintf(&sb, "%x;", b)
 		}
@@ -377,10 +378,26 @@ func valRepr(n *pb.Notification) string {
 	if len(n.Update) != 1 {
 		return fmt.Sprintf("malformed:%d-updates", len(n.Update))
 	}
-	// the value in either encoding (val, or the deprecated value field)
-	c := &pb.Update{Val: n.Update[0].GetVal(), Value: n.Update[0].GetValue()}
+	// the value in either encoding (val, or the deprecated value field); negative zero is the same value as zero
+	// (an event-driven cache rightly withholds 0 -> -0: the leaf's value is unchanged)
+	c := &pb.Update{Val: normZero(n.Update[0].GetVal()), Value: n.Update[0].GetValue()}
 	b, _ := mo.Marshal(c)
 	return fmt.Sprintf("%x", b)
+}
+
+// normZero returns v with a negative floating-point zero replaced by zero (a copy when it has to change).
+func normZero(v *pb.TypedValue) *pb.TypedValue {
+	switch x := v.GetValue().(type) {
+	case *pb.TypedValue_DoubleVal:
+		if x.DoubleVal == 0 {
+			return &pb.TypedValue{Value: &pb.TypedValue_DoubleVal{DoubleVal: 0}}
+		}
+	case *pb.TypedValue_FloatVal:
+		if x.FloatVal == 0 {
+			return &pb.TypedValue{Value: &pb.TypedValue_FloatVal{FloatVal: 0}}
+		}
+	}
+	return v
 }
 
 func keyOfUpdate(n *pb.Notification, u *pb.Update) []string {
